@@ -45,9 +45,26 @@ def with_timeout(fn, seconds=10):
         signal.signal(signal.SIGALRM, old)
 
 
+def _lift_limits():
+    # children (coqc, coqchk, make) are not bound by the address-space cap of the harness process itself
+    import resource
+    soft, hard = resource.getrlimit(resource.RLIMIT_AS)
+    resource.setrlimit(resource.RLIMIT_AS, (hard, hard))
+
+
+def cap_own_memory(gib=10):
+    """A mutated implementation may allocate without bound (a misread block count): cap the harness process so that this
+    ends as a MemoryError inside the call under test instead of taking the machine down."""
+    import resource
+    soft, hard = resource.getrlimit(resource.RLIMIT_AS)
+    cap = gib << 30
+    if hard == resource.RLIM_INFINITY or cap < hard:
+        resource.setrlimit(resource.RLIMIT_AS, (cap, hard))
+
+
 def sh(cmd, cwd=None, timeout=900, env=None):
     p = subprocess.run(cmd, cwd=cwd, stdout=subprocess.PIPE, stderr=subprocess.STDOUT,
-                       timeout=timeout, env=env)
+                       timeout=timeout, env=env, preexec_fn=_lift_limits)
     return p.returncode, p.stdout.decode("utf-8", "replace")
 
 
